@@ -20,6 +20,53 @@ type PropDef struct {
 	NAReason    string // when Rules is empty
 }
 
+// propScopeOut: packages (relative to homescript/) whose code cannot affect a property. An obligation of a shared rule
+// that is anchored in one of them is not reported for that property (it is reported for the properties the package does
+// affect): a defect in the interpreter is not an alarm for the lexical grammar. Obligations without a source position
+// (floors, lost anchors) are always in scope. The lists only name packages that are clearly irrelevant.
+var propScopeOut = map[string][]string{
+	"C01": {"interpreter", "interpreter/value", "optimizer", "fuzzer"},
+	"C02": {"optimizer", "fuzzer", "lexer", "lexer/util", "parser"},
+	"C03": {"compiler", "runtime", "runtime/value", "interpreter", "interpreter/value", "optimizer", "fuzzer"},
+	"C04": {"optimizer", "fuzzer", "lexer", "lexer/util", "parser"},
+	"C05": {"compiler", "runtime", "runtime/value", "interpreter", "interpreter/value", "optimizer", "fuzzer"},
+	"C06": {"compiler", "runtime", "runtime/value", "interpreter", "interpreter/value", "optimizer", "fuzzer", "analyzer"},
+	"C07": {"compiler", "runtime", "runtime/value", "interpreter", "interpreter/value", "optimizer", "fuzzer", "analyzer"},
+	"C08": {"optimizer", "fuzzer"},
+	"C09": {"optimizer", "fuzzer", "lexer", "lexer/util", "parser"},
+	"C10": {"optimizer", "fuzzer", "lexer", "lexer/util", "parser", "analyzer", "analyzer/ast"},
+	"C11": {"optimizer", "fuzzer", "lexer", "lexer/util", "parser"},
+	"C12": {"optimizer", "fuzzer", "lexer", "lexer/util", "parser", "parser/ast"},
+	"C13": {"optimizer", "fuzzer", "lexer", "lexer/util", "parser", "analyzer", "analyzer/ast", "compiler"},
+	"C14": {"optimizer", "fuzzer"},
+	"C15": {"optimizer", "fuzzer", "lexer", "lexer/util"},
+	"C16": {"optimizer", "fuzzer", "lexer", "lexer/util", "parser", "interpreter", "interpreter/value"},
+	"C17": {"optimizer", "fuzzer", "lexer", "lexer/util", "parser"},
+	"C18": {"optimizer", "fuzzer", "lexer", "lexer/util", "parser", "compiler"},
+	"C19": {"runtime", "runtime/value", "interpreter", "interpreter/value", "compiler"},
+	"C20": {"runtime", "runtime/value", "interpreter", "interpreter/value", "compiler"},
+}
+
+// outOfScope reports whether obligation o is anchored in a package that cannot affect property prop.
+func outOfScope(prop string, o Obligation) bool {
+	pos := o.Pos
+	if !strings.HasPrefix(pos, "homescript/") {
+		return false
+	}
+	rest := strings.TrimPrefix(pos, "homescript/")
+	i := strings.LastIndex(rest, "/")
+	if i < 0 {
+		return false // the root package: the pipeline driver
+	}
+	pkg := rest[:i]
+	for _, ex := range propScopeOut[prop] {
+		if pkg == ex {
+			return true
+		}
+	}
+	return false
+}
+
 func propByID(id string) *PropDef {
 	for i := range props {
 		if props[i].ID == id && len(props[i].Rules) > 0 {
